@@ -1029,6 +1029,7 @@ func main() {
 	sectionB(run, r.Fork(2), ne)
 	sectionC(run, r.Fork(3), ne)
 	sectionD(run, r.Fork(4), ne)
+	sectionE(run, r.Fork(5), ne)
 	keys := []string{}
 	for _, h := range fixedHosts {
 		keys = append(keys, h)
